@@ -117,6 +117,14 @@ bool File::open(const String& file, uint flags)
     fp = 0;
     return false;
   }
+  struct stat buf;
+  if(fstat((int)(intptr_t)fp, &buf) == 0 && S_ISDIR(buf.st_mode))
+  { // a directory can be opened for reading, but not be read or sized (lseek reports 2^63 - 1 on ext4)
+    ::close((int)(intptr_t)fp);
+    fp = 0;
+    errno = EISDIR;
+    return false;
+  }
   if(flags & appendFlag)
   {
     if(lseek((int)(intptr_t)fp, 0, SEEK_END) == -1)
